@@ -61,12 +61,6 @@ def jobs():
                       group="L4-find-context", witness=(il == rl or (il < 0 and rl <= 0) or rl < 0),
                       desc="oscore_find_context: context selected iff kid and the whole kid context match (two contexts, symbolic bytes)",
                       bounds={"kid_len": kl, "id_context_len": il, "kid_context_len": rl, "contexts": 2}))
-    du = ["coap_oscore.c", "oscore/oscore.c", "oscore/oscore_cose.c", "oscore/oscore_cbor.c", "oscore/oscore_context.c", "coap_pdu.c", "coap_option.c", "coap_encode.c", "coap_str.c"]
-    for nd in (1, 2):
-        js.append(Job("B2-decrypt-request@k%d" % nd, "C14/c14d.c", "c14_b2_decrypt", du, extra_src=EXTRA, defines=["NDELIV=%d" % nd, "ENV_LOG_QUIET"],
-                      remove_bodies=["__CPROVER_file_local_coap_oscore_c_build_and_send_error_pdu", "__CPROVER_file_local_coap_oscore_c_dump_cose",
-                                     "oscore_log_hex_value", "oscore_log_int_value", "oscore_log_char_value"],
-                      unwind=24, flags=["--max-field-sensitivity-array-size", "200"], group="B2-decrypt-request", timeout=1500, est_gb=6, tier="thorough",
-                      desc="coap_oscore_decrypt_pdu, server side, %d delivery(ies) of a protected request: key/nonce/AAD vs RFC 8613, association, replay state (AEAD model)" % nd,
-                      bounds={"deliveries": nd, "layout": "POST, token 2, OSCORE {piv 1, kid 1}, inner {code, Uri-Path a}"}))
+    # B2-decrypt-request (harness/C14/c14d.c: server half of coap_oscore_decrypt_pdu with an AEAD model) is NOT registered: three attempts
+    # (recursion bounds for coap_add_option_internal/coap_insert_option, concrete plaintext layout) gave no verdict within 700-1500 s - DESIGN 9.5
     return js
